@@ -94,6 +94,10 @@ stub_get_progress(void *coder, uint64_t *progress_in, uint64_t *progress_out)
 	*progress_out = 888;
 }
 
+// Reads a bool as a byte, so that an uninitialised/invalid value is REPORTED (and flagged by the checker) instead of
+// tripping UBSan inside the harness.
+static unsigned bool_byte(const bool *p) { unsigned char b; memcpy(&b, p, 1); return b; }
+
 // ---- regions ----
 static void region_free(region *r) { free(r->alloc); free(r->shadow); memset(r, 0, sizeof(*r)); }
 
@@ -135,9 +139,9 @@ static void print_new(const char *op, lzma_ret ret)
 	} else {
 		unsigned m = 0;
 		for (unsigned a = 0; a <= LZMA_ACTION_MAX; ++a)
-			if (strm.internal->supported_actions[a]) m |= 1u << a;
+			if (bool_byte(&strm.internal->supported_actions[a])) m |= 1u << a;
 		printf(" seq=%u abe=%u tin=%" PRIu64 " tout=%" PRIu64 " sup=%u", (unsigned)strm.internal->sequence,
-				(unsigned)strm.internal->allow_buf_error, strm.total_in, strm.total_out, m);
+				bool_byte(&strm.internal->allow_buf_error), strm.total_in, strm.total_out, m);
 	}
 }
 
@@ -408,7 +412,7 @@ static void do_call(hp_line *l)
 		printf(" seq=- abe=- sav=-");
 	} else {
 		const unsigned sq = (unsigned)strm.internal->sequence;
-		printf(" seq=%u abe=%u", sq, (unsigned)strm.internal->allow_buf_error);
+		printf(" seq=%u abe=%u", sq, bool_byte(&strm.internal->allow_buf_error));
 		if (sq >= 1 && sq <= 4) printf(" sav=%zu", strm.internal->avail_in);
 		else printf(" sav=-");
 	}
